@@ -53,12 +53,15 @@ static LL lib_latlon(const std::string& a, const std::string& b, bool longfirst)
   LL r; Dec d; guard(d, [&] { DMS::DecodeLatLon(a, b, r.lat, r.lon, longfirst); }); r.oc = d.oc; r.what = d.what; return r;
 }
 
-static bool close_value(double got, long double want, long double mag, bool special) {
+// round-off allowance in ulps: 4, plus one per integer digit beyond the 15 a double holds exactly (the decoder accumulates
+// long numerals digit by digit; the documentation gives no accuracy for them)
+static long double ulps_for(int idigits) { return 4 + std::max(0, idigits - 15); }
+static bool close_value(double got, long double want, long double mag, bool special, int idigits = 0) {
   if (special || std::isnan((double)want) || std::isinf((double)want)) {
     if (std::isnan((double)want)) return std::isnan(got);
     return got == (double)want;
   }
-  long double tol = 4 * (long double)EPS * std::max(mag, fabsl(want)) + 1e-300L;
+  long double tol = ulps_for(idigits) * (long double)EPS * std::max(mag, fabsl(want)) + 1e-300L;
   return fabsl((long double)got - want) <= tol;
 }
 
@@ -77,7 +80,7 @@ static dmsg::Result judge_string(Ctx& ctx, const std::string& s, bool derived) {
     if (g.lowercase_hemi) ctx.count("lowercase_hemisphere_assumed");
     if (r.oc != 0) ctx.fail(key, "documented-legal string rejected: " + r.what, F("valid-rejected", "Decode"));
     else {
-      if (!close_value(r.v, g.value, g.mag, g.special)) ctx.fail(key + "/value", "Decode = " + fx(r.v) + " but the documented meaning is " + mc::fmtl(g.value), F("value", "Decode"));
+      if (!close_value(r.v, g.value, g.mag, g.special, g.maxidigits)) ctx.fail(key + "/value", "Decode = " + fx(r.v) + " but the documented meaning is " + mc::fmtl(g.value), F("value", "Decode"));
       if (r.ind != g.flag) ctx.fail(key + "/flag", "Decode flag = " + fmti(r.ind) + " but the documented flag is " + fmti(g.flag), F("flag", "Decode"));
       if (!g.special && g.mag > 0) ctx.worst("decode.err_over_tol", (double)(fabsl((long double)r.v - g.value) / (4 * (long double)EPS * std::max(g.mag, fabsl(g.value)))), key);
     }
@@ -93,13 +96,13 @@ static dmsg::Result judge_string(Ctx& ctx, const std::string& s, bool derived) {
   bool wantA = g.verdict == dmsg::ACCEPT && g.flag == dmsg::NONE, wantZ = g.verdict == dmsg::ACCEPT && g.flag != dmsg::LATITUDE;
   if (g.special) { z.oc = 0; wantZ = true; }                 // azimuth of nan/inf: accept or reject, both undocumented
   if (wantA != (a.oc == 0)) ctx.fail(key + "/angle", std::string("DecodeAngle ") + (a.oc == 0 ? "accepted" : "rejected") + " a string that is " + (wantA ? "a legal arc angle" : "not a legal arc angle"), F(wantA ? "valid-rejected" : "invalid-accepted", "DecodeAngle"));
-  else if (wantA && !close_value(a.v, g.value, g.mag, g.special)) ctx.fail(key + "/angle", "DecodeAngle = " + fx(a.v) + " want " + mc::fmtl(g.value), F("value", "DecodeAngle"));
+  else if (wantA && !close_value(a.v, g.value, g.mag, g.special, g.maxidigits)) ctx.fail(key + "/angle", "DecodeAngle = " + fx(a.v) + " want " + mc::fmtl(g.value), F("value", "DecodeAngle"));
   if (wantZ != (z.oc == 0)) ctx.fail(key + "/azi", std::string("DecodeAzimuth ") + (z.oc == 0 ? "accepted" : "rejected") + " a string that is " + (wantZ ? "a legal azimuth" : "not a legal azimuth"), F(wantZ ? "valid-rejected" : "invalid-accepted", "DecodeAzimuth"));
   else if (wantZ) {
     if (g.special || std::isinf((double)g.value) || std::isnan((double)g.value)) ctx.count("doc_silent_azimuth_of_nonfinite");     // "reduced to [-180,180]" says nothing about inf/nan
     else {
       long double d = remainderl((long double)z.v - g.value, 360.0L);
-      long double tol = 4 * (long double)EPS * std::max(g.mag, 360.0L);
+      long double tol = ulps_for(g.maxidigits) * (long double)EPS * std::max(g.mag, 360.0L);
       if (!(fabsl(d) <= tol) || !(std::fabs(z.v) <= 180)) ctx.fail(key + "/azi", "DecodeAzimuth = " + fx(z.v) + " want " + mc::fmtl(g.value) + " reduced to [-180,180]", F("value", "DecodeAzimuth"));
     }
   }
@@ -135,7 +138,7 @@ static void judge_latlon(Ctx& ctx, const std::string& a, const std::string& b, b
     }
   }
   if (want != (r.oc == 0)) { ctx.fail(key, std::string("DecodeLatLon ") + (r.oc == 0 ? "accepted" : "rejected: " + r.what) + " but the documented rules say " + (want ? "legal" : "illegal"), F(want ? "valid-rejected" : "invalid-accepted")); return; }
-  if (want && (!close_value(r.lat, lat, mlat, slat) || !close_value(r.lon, lon, mlon, slon)))
+  if (want && (!close_value(r.lat, lat, mlat, slat, std::max(ga.maxidigits, gb.maxidigits)) || !close_value(r.lon, lon, mlon, slon, std::max(ga.maxidigits, gb.maxidigits))))
     ctx.fail(key + "/value", "DecodeLatLon = (" + fx(r.lat) + ", " + fx(r.lon) + ") want (" + mc::fmtl(lat) + ", " + mc::fmtl(lon) + ")", F("value"));
 }
 
